@@ -117,7 +117,7 @@ def gen_struct(cname, srcs, unit, manifest):
 
 
 # ---------------------------------------------------------------- contracts
-def contract_lines(spec, linemap, probe=True, for_replacement=False):
+def contract_lines(spec, linemap, probe=True, for_replacement=False, light=False):
     """emit the contract clauses, one per line; record (line offset -> label)."""
     out = []
     have_req = have_ens = False
@@ -130,6 +130,8 @@ def contract_lines(spec, linemap, probe=True, for_replacement=False):
     if not have_req:
         out.append(('__CPROVER_requires(1)', None, 'requires'))
     for c in spec.clauses:
+        if c.kind == 'ensures' and light and not c.light:
+            continue
         if c.kind == 'ensures':
             out.append(('__CPROVER_ensures(%s)' % c.expr, c.label, 'ensures'))
             have_ens = True
@@ -271,9 +273,11 @@ def build_tu(spec, workdir):
             tu.add(it[1])
     # contract-only declarations for replaced functions under contract
     for cn in spec.calls:
+        light = cn.endswith('/light')
+        cn = cn.split('/')[0]
         cs = find_spec_by_cname(cn)
         tu.add('%s %s(%s)' % (cs.cret, cs.cname, cs.cparams))
-        for text, label, kind in contract_lines(cs, None, for_replacement=True):
+        for text, label, kind in contract_lines(cs, None, for_replacement=True, light=light):
             # preconditions of replaced callees are checked at the call site: keep their labels
             tu.add(text, label if kind == 'requires' else None, 'callee-requires:' + cs.cname if kind == 'requires' else None)
         tu.add(';')
@@ -292,6 +296,7 @@ def build_tu(spec, workdir):
         tu.add(text, label, kind)
     if spec.witness:
         tu.add('__CPROVER_assigns(%s)' % ', '.join('W_' + n for n, _, _ in spec.witness))
+    tu.add('__CPROVER_assigns(VF_PAD)')
     tu.add('{')
     for name, cty, expr in spec.witness:
         tu.add('  W_%s = %s;' % (name, expr))
